@@ -91,8 +91,9 @@ class C17(Prop):
                   "compares functions, variables, inherits, line info, code and call results")
     level_note = ("trusted: Lean kernel; nvlib/extract.py + the regular expressions of props/c17.py that read ids, member "
                   "lists, statement orders and function texts; the harness (differential; only generated programs and "
-                  "histories); the compiler is not modelled (its dumps are data); no formal judge(model trace) = [] for whole "
-                  "histories - clause-level invariants instead; open finding C17-include-shadowed (include search order); the "
+                  "histories); the compiler is not modelled (its dumps are data); no judge(model trace) = [] for whole "
+                  "histories - clause-level top theorems for the never-stale and outdated-parent clauses "
+                  "(model_use_passes_stale_clause, model_save_passes_outdated_clause), invariants for the others; open finding C17-include-shadowed (include search order); the "
                   "program generator is a grammar of shapes, not all LPC")
     rule = ("cases = corpus + known-finding inputs + boundary list + seeded random cases of six kinds: uqsort (the real quickSort "
             "on 0..250 elements of 4/8/10 bytes under comparison tables that are orders, preorders, constant or random), usort (random "
